@@ -38,12 +38,14 @@ func (v tval) String() string {
 }
 
 type tableEval struct {
-	c      *Ctx
-	leaf   func(f *Func, e ast.Expr) (tval, bool)    // rule-specific operands
-	effect func(f *Func, call *ast.CallExpr) bool    // statement-level calls the rule knows about (recorded or ignored)
-	field  func(base tval, name string) (tval, bool) // field of a symbolic object produced by leaf
-	why    string                                    // set when undecided
-	depth  int
+	c       *Ctx
+	leaf    func(f *Func, e ast.Expr) (tval, bool)           // rule-specific operands
+	effect  func(f *Func, call *ast.CallExpr) bool           // statement-level calls the rule knows about (recorded or ignored)
+	field   func(base tval, name string) (tval, bool)        // field of a symbolic object produced by leaf
+	leafEnv func(f *Func, e ast.Expr, env tenv) (tval, bool) // the same with the locals in reach
+	br      string                                           // "continue"/"break" left a block early (loop bodies evaluated by a rule)
+	why     string                                           // set when undecided
+	depth   int
 }
 
 func (t *tableEval) fail(f *Func, n ast.Node, what string) {
@@ -216,6 +218,12 @@ func (t *tableEval) stmt(f *Func, s ast.Stmt, env tenv) ([]tval, bool, bool) {
 		return nil, false, true
 	case *ast.EmptyStmt:
 		return nil, false, true
+	case *ast.BranchStmt:
+		if s.Label == nil && (s.Tok == token.CONTINUE || s.Tok == token.BREAK) {
+			// leaves the enclosing block sequence; the rule that evaluates a loop body reads t.br
+			t.br = s.Tok.String()
+			return nil, true, true
+		}
 	case *ast.ExprStmt:
 		if call, ok := ast.Unparen(s.X).(*ast.CallExpr); ok {
 			if t.effect != nil && t.effect(f, call) {
@@ -252,6 +260,11 @@ func (t *tableEval) expr(f *Func, e ast.Expr, env tenv) (tval, bool) {
 	e = ast.Unparen(e)
 	if t.leaf != nil {
 		if v, ok := t.leaf(f, e); ok {
+			return v, true
+		}
+	}
+	if t.leafEnv != nil {
+		if v, ok := t.leafEnv(f, e, env); ok {
 			return v, true
 		}
 	}
